@@ -50,10 +50,14 @@ type event struct {
 
 func (e event) String() string { return fmt.Sprintf("%s(%d,%d)", e.kind, e.a, e.b) }
 
-func build(n int) *world {
+// build creates n routers; bit i of lite / stub makes router i a lite / stub router.
+func build(n int, lite, stub int) *world {
 	wd := &world{}
 	for i := 0; i < n; i++ {
-		nd, err := kit.NewNode(kit.NodeOpts{Name: fmt.Sprintf("N%d", i), ID: pool[i], Store: config.Store{}})
+		st := config.Store{}
+		st.Router.Lite = lite&(1<<i) != 0
+		st.Router.Stub = stub&(1<<i) != 0
+		nd, err := kit.NewNode(kit.NodeOpts{Name: fmt.Sprintf("N%d", i), ID: pool[i], Store: st})
 		if err != nil {
 			panic(err)
 		}
@@ -298,6 +302,8 @@ type scenario struct {
 	depth     [2]int
 	maxState  [2]int
 	maxFaults [2]int // close / mgrclose / eof / break events per sequence
+	lite      int    // bit mask of lite routers
+	stub      int    // bit mask of stub routers
 }
 
 func explore(t *testing.T, rep *kit.Report, env kit.Env, sc scenario) {
@@ -326,7 +332,7 @@ func explore(t *testing.T, rep *kit.Report, env kit.Env, sc scenario) {
 			var nextEvents []event
 			var panics []string
 			synctest.Test(t, func(t *testing.T) {
-				wd := build(sc.nodes)
+				wd := build(sc.nodes, sc.lite, sc.stub)
 				var watchers []func() []string
 				for _, n := range wd.nodes {
 					watchers = append(watchers, kit.WatchPanics(n))
@@ -431,15 +437,18 @@ func explore(t *testing.T, rep *kit.Report, env kit.Env, sc scenario) {
 func TestC16(t *testing.T) {
 	env := kit.GetEnv()
 	rep := kit.NewReport("C16", env)
-	rep.Rule = "explicit-state BFS over event sequences on 2-3 real Peering instances with real link objects and running reader/writer workers (synctest bubble): dial(a,b) starts both real setup sides; pump(w) relays the pending handshake/link messages of one connection by one round (so two concurrent setups - incl. both ends dialling each other - interleave at message granularity); close (link.Close), mgrclose (Peering.CloseLink), eof (remote close) and break (I/O error on read and write) on either end; after every event the bubble is quiescent and the invariant is evaluated against the harness's own list of live link objects; states deduplicated on (per-connection progress and link states, registry content by link identity, peer routes); non-trivial = sequences longer than 3 events; second engine (registry-sched): 7 scenarios of 2-3 threads calling the real AddLink / Close->RemoveLink / CloseLink / lookups on virtual links to the same or different peers and labels, with the peering and m packages' sync operations as scheduling points, ALL schedules with <= 2 (thorough 3) preemptions, invariant when all threads are done"
+	rep.Rule = "explicit-state BFS over event sequences on 2-3 real Peering instances (plain, lite and stub routers) with real link objects and running reader/writer workers (synctest bubble): dial(a,b) starts both real setup sides; pump(w) relays the pending handshake/link messages of one connection by one round (so two concurrent setups - incl. both ends dialling each other - interleave at message granularity); close (link.Close), mgrclose (Peering.CloseLink), eof (remote close) and break (I/O error on read and write) on either end; after every event the bubble is quiescent and the invariant is evaluated against the harness's own list of live link objects; states deduplicated on (per-connection progress and link states, registry content by link identity, peer routes); non-trivial = sequences longer than 3 events; second engine (registry-sched): 7 scenarios of 2-3 threads calling the real AddLink / Close->RemoveLink / CloseLink / lookups on virtual links to the same or different peers and labels, with the peering and m packages' sync operations as scheduling points, ALL schedules with <= 2 (thorough 3) preemptions, invariant when all threads are done"
 	rep.Assumptions = []string{
 		"BFS engine: goroutine scheduling inside one event is resolved by bubble quiescence, events are atomic from the harness's point of view; finer interleavings of the registry's critical sections are explored by the second (controlled-scheduler) engine on virtual links",
 		"random fallback switch labels are abstracted in the state key (link identity is used instead of the label value)",
 	}
 	scs := []scenario{
-		{"two-routers/single-dial", 2, [][2]int{{0, 1}}, [2]int{9, 11}, [2]int{3000, 40000}, [2]int{3, 4}},
-		{"two-routers/cross-connect", 2, [][2]int{{0, 1}, {1, 0}}, [2]int{11, 13}, [2]int{6000, 100000}, [2]int{2, 3}},
-		{"three-routers/chain-and-cross", 3, [][2]int{{0, 1}, {1, 2}, {2, 1}}, [2]int{11, 13}, [2]int{6000, 100000}, [2]int{1, 2}},
+		{"two-routers/single-dial", 2, [][2]int{{0, 1}}, [2]int{9, 11}, [2]int{3000, 40000}, [2]int{3, 4}, 0, 0},
+		{"two-routers/cross-connect", 2, [][2]int{{0, 1}, {1, 0}}, [2]int{11, 13}, [2]int{6000, 100000}, [2]int{2, 3}, 0, 0},
+		{"three-routers/chain-and-cross", 3, [][2]int{{0, 1}, {1, 2}, {2, 1}}, [2]int{11, 13}, [2]int{6000, 100000}, [2]int{1, 2}, 0, 0},
+		// rarely used router flavours: a lite dialler / a lite listener, a stub router.
+		{"two-routers/single-dial/lite-listener", 2, [][2]int{{0, 1}}, [2]int{9, 11}, [2]int{3000, 40000}, [2]int{3, 4}, 2, 0},
+		{"two-routers/single-dial/lite-dialler+stub-listener", 2, [][2]int{{0, 1}}, [2]int{9, 11}, [2]int{3000, 40000}, [2]int{3, 4}, 1, 2},
 	}
 	for _, sc := range scs {
 		explore(t, rep, env, sc)
